@@ -29,7 +29,7 @@ TEXT = {
               'the text and leaves output and trim state untouched (capture_seq, captureM_keeps_tw), a loop restores its variable '
               "and forloop on normal end, break and continue (loop_restores), an include starts from the includer's current "
               'variables and its assignments do not flow back (include_sees_vars, include_isolated). Capture equivalence '
-              '(capture_equiv, capture_equiv_root, capture_equiv_root_conv/_iff): for every body that renders normally in place, '
+              '(capture_equiv, capture_equiv_root, capture_equiv_root_conv/_iff, capture_equiv_engine for the engine\'s own context, capture_equiv_root_err for a failing body: same error, re-wrapped at the capture tag): for every body that renders normally in place, '
               'capture-then-print puts exactly the same bytes through the trim writer and leaves the same variables plus the '
               'captured one - in any state whose pending text has no trailing white space and whose trim flag is clear, in '
               'particular for whole templates, where the two render normally under exactly the same conditions; each side '
